@@ -10,8 +10,9 @@ META = {
             'sets at every probe, and the exact LuaType as an extra), and the property itself is searched on the real analyzer: the exact '
             'reachable tag set over all oracle valuations must be contained in the inferred type.',
     "note": 'Fragment: locals declared up-front with literal initialisers (nil/boolean/number/string/table/function), literal reassignment, '
-            'if/elseif/else, conditions from type(x)=="T", x==nil, x~=nil, x, not, and, or, opaque globals. Not covered: assignments from '
-            'expressions, nested scopes/shadowing, flipped operand order, `~=` with type(). Trusted: Coq kernel; the hand model (forward '
+            'if/elseif/else, conditions from type(x)=="T", x==nil, x~=nil and their flipped forms ("T"==type(x), nil==x, nil~=x), x, not, and, or, opaque '
+            'globals, `assert(c)`, and early exits `if c then .. return end` / `if c then .. error(..) end` (a failed assert, error and return end the '
+            'chunk). Not covered: assignments from expressions or other variables, nested scopes/shadowing, `~=` with type(), field narrowing. Trusted: Coq kernel; the hand model (forward '
             'reformulation of the backward walk), validated by the correspondence, not proved equal to the Rust; no Lua VM is used (the '
             'semantics is the Gallina interpreter). Axioms: none. One defect found and fixed (d91459f: empty else block).',
     "technique": "Coq proof (simulation between a big-step semantics and a per-variable abstract interpreter transcribed from the Rust) + exact "
